@@ -136,6 +136,48 @@ func implInject(k int, inTry bool, vars, prog string) string {
 	return esc + ";" + restTok(vm) + ";" + tr + ";" + followTok(vm)
 }
 
+// implHalt delivers, at evaluation step k, an interrupt function that panics, through the real channel (the
+// hook fills the one-slot channel; the poll that follows the hook at every polling point takes it).  Whether
+// or not a script-level try block is active there, the panic has to come out of Run with nothing run after it.
+func implHalt(k int, vars, prog string) string {
+	src := mujs.RenderJS(vars, prog)
+	_, lens, normal := countSteps(src)
+	if k >= len(lens) {
+		return "k-out-of-range"
+	}
+	var logged []string
+	vm := newVM(&logged)
+	vm.Interrupt = make(chan func(), 1)
+	step := 0
+	otto.VerifStepHook = func(depth, labels int) {
+		if step == k {
+			vm.Interrupt <- func() { panic(sentinel{k}) }
+		}
+		step++
+	}
+	esc := "returned"
+	func() {
+		defer func() {
+			otto.VerifStepHook = nil
+			if r := recover(); r != nil {
+				if s, ok := r.(sentinel); ok && s.k == k {
+					esc = "escapes"
+				} else {
+					esc = "other-panic:" + strings.ReplaceAll(fmt.Sprint(r), " ", "_")
+				}
+			}
+		}()
+		vm.Run(src)
+	}()
+	vm.Interrupt = nil
+	tr := "trace:exact-prefix"
+	want := normal[:lens[k]]
+	if strings.Join(want, ",") != strings.Join(logged, ",") {
+		tr = "trace:differs(" + strings.Join(logged, ",") + "|want|" + strings.Join(want, ",") + ")"
+	}
+	return esc + ";" + restTok(vm) + ";" + tr + ";" + followTok(vm)
+}
+
 // implDepthSeq: k stack overflows inside ONE Run, each caught (how=script: by try/catch where it
 // happens; how=host: by a Go host function that swallows the error of Value.Call), and after each a
 // probe of how many nested calls the limit admits.
@@ -346,6 +388,16 @@ var spinShapes = []string{
 	`(function(){ for(;;); }).call(null)`,
 	`(function(){ for(;;); }).apply(null, [])`,
 	`JSON.stringify({toJSON: function(){ for(;;); }})`,
+	// scripts that catch everything: the halt must still come out (fix fd4edef)
+	`for(;;){ try { for(;;){} } catch (e) {} }`,
+	`try { for(;;); } catch (e) { } finally { }`,
+	`for(;;) { try { throw 1 } catch (e) { } }`,
+	`for(;;) { try { null.x } catch (e) { } finally { } }`,
+	`function f(){ try { f2() } catch (e) { return 1 } } function f2(){ for(;;); } f()`,
+	`[1].forEach(function(){ try { for(;;); } catch (e) {} })`,
+	`try { try { while(true){} } finally { } } catch (e) { }`,
+	`for(;;) { try { eval("for(;;);") } catch (e) { } }`,
+	`var o = {toString: function(){ try { for(;;); } catch (e) { } return "" }}; for(;;) { try { "" + o } catch (e) { } }`,
 }
 
 type halt struct{}
@@ -354,7 +406,9 @@ type halt struct{}
 func spinOnce(vm *otto.Otto, src string, fn func()) string {
 	vm.Interrupt = make(chan func(), 1)
 	done := make(chan string, 1)
+	exited := make(chan struct{})
 	go func() {
+		defer close(exited)
 		defer func() {
 			if r := recover(); r != nil {
 				if _, ok := r.(halt); ok {
@@ -373,11 +427,18 @@ func spinOnce(vm *otto.Otto, src string, fn func()) string {
 	select {
 	case r := <-done:
 		vm.Interrupt = nil
-		if strings.Contains(src, "try") && (r == "halted" || strings.HasPrefix(r, "returned:")) {
-			r = "halted-or-caught"
-		}
 		return r
 	case <-time.After(3 * time.Second):
+		// the script goes on spinning (it may have caught the halt): end its goroutine, which no script-level
+		// try can prevent (Goexit is not a panic), so that it neither burns a core nor touches vm any more
+		select {
+		case vm.Interrupt <- func() { goruntime.Goexit() }:
+		default:
+		}
+		select {
+		case <-exited:
+		case <-time.After(2 * time.Second):
+		}
 		return "timeout"
 	}
 }
@@ -452,9 +513,6 @@ func implInterrupt(shape int) string {
 		return out + fmt.Sprintf(";again:benign-interrupt-lost(called=%v,err=%v)", called, err != nil)
 	}
 	second := spinOnce(vm, spinShapes[(shape+7)%len(spinShapes)], func() { panic(halt{}) })
-	if second == "halted-or-caught" {
-		second = "halted"
-	}
 	return out + ";again:" + second
 }
 
@@ -472,6 +530,9 @@ func implC18(line string) string {
 	case "reenter":
 		fmt.Sscan(f[1], &a)
 		return implReenter(a, f[2], f[3])
+	case "halt":
+		fmt.Sscan(f[1], &a)
+		return implHalt(a, f[3], f[4])
 	case "depth":
 		fmt.Sscan(f[1], &a)
 		fmt.Sscan(f[2], &b)
@@ -573,6 +634,7 @@ func genC18(c *h.Ctx) {
 					w = "intry"
 				}
 				c.Add(fmt.Sprintf("inject %d %s x,y,n %s", k, w, prog), "inject:labelled-loop-template")
+				c.Add(fmt.Sprintf("halt %d %s x,y,n %s", k, w, prog), "halt:labelled-loop-template")
 			}
 		}
 	}
@@ -592,6 +654,11 @@ func genC18(c *h.Ctx) {
 		}
 		for _, k := range ks {
 			c.Add(fmt.Sprintf("reenter %d %s %s", k, vars, prog), "reenter:benign-interrupt-running-script")
+			if intry[k] {
+				c.Add(fmt.Sprintf("halt %d intry %s %s", k, vars, prog), "halt:inside-try")
+			} else {
+				c.Add(fmt.Sprintf("halt %d free %s %s", k, vars, prog), "halt:outside-try")
+			}
 			if intry[k] {
 				c.Add(fmt.Sprintf("inject %d intry %s %s", k, vars, prog), "inject:inside-try")
 			} else if strings.Contains(prog, "Y(") {
